@@ -1,6 +1,7 @@
 package main
 
 import (
+	"go/types"
 	"fmt"
 	"sort"
 	"strings"
@@ -293,6 +294,35 @@ func rulesC07(e *Engine, r *Report) {
 				}
 				r.Check(okS, "R07.7", e.ShortName(cf)+": the list scanned was sorted (sort.Sort) before the loop", e.Pos(cf.Pos()),
 					"gaps are computed over an unsorted part list (parts are recorded in arrival order): ranges the receiver holds would be sent again", 1)
+				// ... and sorted by where the parts begin (the scan walks upwards through the file)
+				if len(srt) == 1 {
+					arg := srt[0].(ssa.CallInstruction).Common().Args[0]
+					if mi, ok := arg.(*ssa.MakeInterface); ok {
+						T := mi.X.Type()
+						var pkg *types.Package
+						if nt, ok := T.(*types.Named); ok {
+							pkg = nt.Obj().Pkg()
+						}
+						less := e.Prog.LookupMethod(T, pkg, "Less")
+						swap := e.Prog.LookupMethod(T, pkg, "Swap")
+						okL := false
+						var lv string
+						if less != nil {
+							Instrs(less, func(in ssa.Instruction) {
+								if rt, ok := in.(*ssa.Return); ok && len(rt.Results) == 1 {
+									lv = e.Canon(rt.Results[0])
+									okL = lv == "((p0[p1].Beg - p0[p2].Beg) < 0)" || lv == "(p0[p1].Beg < p0[p2].Beg)" || lv == "(p0[p2].Beg > p0[p1].Beg)"
+								}
+							})
+						}
+						r.Check(okL, "R07.7", e.ShortName(cf)+": the part list is ordered by Beg (ascending)", e.InstrPos(srt[0]),
+							"the comparator the gap scan relies on does not order parts by their first byte: touching or overlapping parts listed out of order stay out of order and held ranges are sent again / reversed ranges are produced ("+lv+")", 1, lv)
+						okW := swap != nil && len(e.findInstrs(swap, "store(p0[p1] = p0[p2])", false)) == 1 && len(e.findInstrs(swap, "store(p0[p2] = p0[p1])", false)) == 1
+						r.Check(okW, "R07.7", e.ShortName(cf)+": Swap exchanges the two elements", e.InstrPos(srt[0]), "the sort's Swap does not exchange elements i and j", 1)
+					} else {
+						r.Unresolved("R07.7", "type of the list handed to sort.Sort in "+e.ShortName(cf))
+					}
+				}
 				ends := e.fieldStoreVals(cf, "sts.ByteRange", "End")
 				sort.Strings(ends)
 				okE := len(ends) == 2
